@@ -124,6 +124,12 @@ def r2_type_gate(ctx) -> None:
         r.ok("C03.R2", ap.qual, "expansion members are fed through apply() again (gated individually)", loc)
     else:
         r.violation("C03.R2", ap.qual, "SigmaExpansion branch", "members of an expansion value are not re-gated through apply()", loc)
+    # an expansion member that is expanded again must not nest: every consumer iterates one level of .values
+    flat = any(isinstance(n, ast.If) and unparse(n.test) in ("isinstance(va, SigmaExpansion)",) and any("extend" in unparse(b) and ".values" in unparse(b) for b in n.body) for n in walk_no_nested(ap.node))
+    if flat:
+        r.ok("C03.R2", ap.qual, "results of expansion members that are expansions themselves are merged into one flat expansion", loc)
+    else:
+        r.violation("C03.R2", ap.qual, "SigmaExpansion([... for va in self.apply(v)])", "an expanding modifier applied to an expansion (windash|base64offset, base64offset|base64offset) nests an expansion inside an expansion: conversion iterates one level of values and fails with AttributeError on the inner one", loc)
     am = prog.func("sigma.rule.detection.SigmaDetectionItem.apply_modifiers")
     calls = [call_name(c) for c in walk_no_nested(am.node) if isinstance(c, ast.Call)]
     if "modifier_instance.apply" in calls and not any(c.endswith(".modify") for c in calls):
@@ -147,7 +153,7 @@ def r2_type_gate(ctx) -> None:
         r.ok("C03.R2", tc.qual, "type_check derives the admitted classes from modify()'s annotation; unknown shapes → False", tc.loc)
     else:
         r.violation("C03.R2", tc.qual, "type_check", "type_check no longer derives admissibility from the modify() annotation with a closing `return False`", tc.loc)
-    r.floor("C03.R2", 5)
+    r.floor("C03.R2", 6)
 
 
 def r3_wildcard_adders(ctx) -> None:
